@@ -69,5 +69,26 @@ TEXTS = {
   "level": "exploration: in normal mode every tabulated type must surface in exactly its queue, error variants in the error queue and their non-error variants nowhere, state-consumed and startup types in neither user queue, untabulated types in exactly one user queue and always the same; in debug mode everything except STALL in the message queue; each queue FIFO, <= 128 retained, oldest dropped, buffers byte-identical and freed by the caller exactly once; with concurrent readers every message is delivered to exactly one reader in arrival order",
   "note": "the contract table is read from the README of the tree under test; the set of state-consumed types is transcribed from the statements of C07/C15/C01/C04; BOOST_STAT codes whose error/non-error classification is not documented (NOPOWER, NO_DCC, ON_LIMIT, ON_HOT, ON_STOP_REQ) and CS_DRIVE_EVENT reports whose address byte and event code disagree are not generated",
  },
+ "C07": {
+  "technique": "model-based property-based testing (rapidcheck): generated configurations, trees and histories of state-bearing uplink messages (full field ranges, known and unknown references) interleaved with the user's drive / DCC-accessory commands; oracle = executable reference model of the tracked state (props/state_model.hpp) folded over the history and compared with bidib_get_state field by field after every step",
+  "level": "exploration: 13 kinds of feedback (occupancy, address lists incl. free form / accessory entries / both orientations, confidence, segment and booster current over all 256 codes, voltage, temperature, measured speed, decoder dynamics, booster and command-station state, accessory / peripheral / reverser state, drive and accessory acknowledgements, manual drive / accessory operation) and 4 kinds of user command; a message with an unknown node, number, port or address must leave the whole snapshot unchanged",
+  "note": "the initial value of the fold is read from the library after startup (initial values are C14/C20); BOOST_STAT codes without documented classification, detector number 255 inside bitmaps and reserved drive function bits are not generated; one orientation code per decoder address per case (C08 varies it)",
+ },
+ "C08": {
+  "technique": "property-based testing (rapidcheck) with an invariant oracle over the getters: generated occupancy histories (OCC / FREE / MULTIPLE / ADDRESS, trains spanning segments, several trains per segment, unknown addresses, both orientations) with 0-2 concurrent getter threads under scheduler-owned interleavings; concurrent results are checked linearizability-style against the values at the message boundaries inside the call window",
+  "level": "exploration: after every message on_track == (some segment lists the address), position == exactly those segments, orientation is one reported with the address, bidib_get_trains_on_track and bidib_get_state agree, a segment just reported free lists nothing; every concurrent bidib_get_train_position / _on_track / bidib_get_segment_state result equals the boundary value of some message boundary inside the window of the call",
+  "note": "no reference model: the invariant couples the getters with each other; one decoder is listed at most once per address list (a detector never reports it twice); interleavings at lock / sleep granularity",
+ },
+ "C17": {
+  "technique": "property-based testing (rapidcheck) with sanitizer oracles: generated configurations, state histories and getter call lists over all 44 public getters x {known, foreign, unknown, NULL} ids; every result is rendered field by field, kept alive across further state changes and bidib_stop, re-rendered and freed once under AddressSanitizer; the same generator runs in an uninstrumented build under Valgrind Memcheck with a definedness client request on every field; snapshot-vs-single-getter equality over all entities",
+  "level": "exploration: (a) ASan/LSan: no use-after-free, double free or invalid free, results unchanged after later messages and after stop; (b) Memcheck: no uninitialised field in any result incl. everything it points to, for known and unknown ids; (c) bidib_get_state equals the single-entity getter for every point, signal, peripheral, segment, reverser, train, booster and track output",
+  "note": "definedness is decided by Valgrind's bit-precise tracking, 30x slower than the ASan part and therefore run with fewer cases; fields are visited one by one, padding is never inspected",
+  "engine": "vfprop",
+ },
+ "C16": {
+  "technique": "stateful property-based testing (rapidcheck): generated lists of 1-5 library sessions in one process (normal / silent interface / faulty configuration / debug mode x auto-flush off, 5 ms, 50 ms) with generated activity, stop-while-stopped and start-while-running calls and repeated recipes; oracles = decoded shutdown transcript (order and exactly-once constraints), thread ledger and lock table of the interposed pthread layer, LeakSanitizer, metamorphic session-equivalence (a repeated recipe yields the same startup transcript, probe transcript and snapshot)",
+  "level": "exploration: every successfully started normal session must end with exactly one soft-stop per connected track output, then a zero-speed/functions-off drive message per (train, output), then exactly one track-off per output, all on the wire before bidib_stop returns; every thread created is joined exactly once and none of an earlier session again; no lock held, no leak; no-op calls produce no byte and no thread; session k behaves like session 1 (capacity 64, numbering from 1, same startup dialogue)",
+  "note": "known finding listed in KNOWN_FINDINGS.txt: shutdown commands deferred behind unanswered requests of a track output are discarded (excluded by construction while listed: requests to track outputs are answered); leak detection relies on LeakSanitizer's recoverable check at the end of the case",
+ },
 }
 NOT_YET = {}
